@@ -466,6 +466,26 @@ impl<P: Protocol + Clone + Send + 'static> Server<P> {
     }
 }
 
+#[cfg(rumqtt_verif)]
+impl<P: Protocol + Clone + Send + 'static> Server<P> {
+    /// Runs the per-connection task for an already accepted in-memory
+    /// stream: the part of `start()` after `accept()`, without TCP.
+    pub fn verif_accept(
+        &self,
+        stream: Box<dyn N>,
+        tenant_id: Option<String>,
+    ) -> impl std::future::Future<Output = ()> {
+        remote(
+            Arc::new(self.config.connections.clone()),
+            tenant_id,
+            self.router_tx.clone(),
+            stream,
+            self.protocol.clone(),
+            self.awaiting_will_handler.clone(),
+        )
+    }
+}
+
 /// Configures the Websocket connection to indicate the correct protocol
 /// by adding the "sec-websocket-protocol" with value of "mqtt" to the response header
 #[cfg(feature = "websocket")]
